@@ -71,7 +71,7 @@ PERSONALITIES = ("uniform", "starve_one_worker", "favour_one_worker", "filler_fi
 
 
 class Sched:
-    def __init__(self, rng=None, decisions=None, personality="uniform", step_cap=20000, time_cap=600.0,
+    def __init__(self, rng=None, decisions=None, personality="uniform", step_cap=60000, time_cap=20000.0,
                  line_p=0.0, line_decisions=None):
         self.rng = rng
         self.replay = list(decisions) if decisions is not None else None
@@ -578,10 +578,62 @@ class SimDatetime:
 _RUN = None  # dict describing the current run: plan, ledger
 
 
+def make_exception(name, item_id):
+    """assorted Exception subclasses a user callback may raise (I/O errors with their errno,
+    lookup/arith/type errors, a user-defined class)"""
+    import errno
+
+    msg = f"injected callback failure on item {item_id}"
+    if name.startswith("OSError:"):
+        code = getattr(errno, name.split(":")[1])
+        cls = {errno.EAGAIN: BlockingIOError, errno.EINTR: InterruptedError, errno.ETIMEDOUT: TimeoutError,
+               errno.ENOENT: FileNotFoundError, errno.EACCES: PermissionError, errno.EPIPE: BrokenPipeError,
+               errno.ECONNRESET: ConnectionResetError}.get(code, OSError)
+        return cls(code, msg)
+    if name == "UnicodeDecodeError":
+        return UnicodeDecodeError("utf-8", b"\xff", 0, 1, msg)
+    if name == "KeyError":
+        return KeyError(item_id)
+    if name == "UserDefined":
+        return InjectedError(msg)
+    return {"RuntimeError": RuntimeError, "ValueError": ValueError, "IndexError": IndexError, "TypeError": TypeError,
+            "ZeroDivisionError": ZeroDivisionError, "AssertionError": AssertionError, "MemoryError": MemoryError,
+            "StopIteration": StopIteration, "LookupError": LookupError, "EOFError": EOFError,
+            "NotImplementedError": NotImplementedError, "OverflowError": OverflowError}.get(name, RuntimeError)(msg)
+
+
+class InjectedError(Exception):
+    pass
+
+
+EXC_NAMES = ["RuntimeError", "ValueError", "KeyError", "IndexError", "TypeError", "ZeroDivisionError", "AssertionError",
+             "MemoryError", "StopIteration", "LookupError", "EOFError", "NotImplementedError", "OverflowError",
+             "UnicodeDecodeError", "UserDefined", "OSError:EAGAIN", "OSError:EINTR", "OSError:ETIMEDOUT", "OSError:ENOENT",
+             "OSError:EACCES", "OSError:EPIPE", "OSError:ECONNRESET", "OSError:ESTALE", "OSError:ENOSPC", "OSError:EIO",
+             "OSError:EBUSY", "OSError:ENOMEM"]
+
+
+def obj_key(o):
+    return type(o).__name__ + ":" + repr(o)
+
+
+def build_obj(spec):
+    t, v = spec["t"], spec["v"]
+    if t == "bytes":
+        return bytes.fromhex(v)
+    if t == "tuple":
+        return tuple(v)
+    return v
+
+
 def callback(q_item, *sketches, **kwargs):
     run = _RUN
     s = _SCHED
-    item_id, pairs, n_recs = q_item
+    if isinstance(q_item, tuple) and len(q_item) == 3 and isinstance(q_item[1], list):
+        item_id, pairs, n_recs = q_item
+    else:
+        # an item may be any picklable object; the harness keeps its payload in a side table
+        item_id, pairs, n_recs = run["by_obj"][obj_key(q_item)]
     me = s.me()
     who = me.name if me is not None else "?"
     run["ledger"].append((item_id, who))
@@ -594,7 +646,7 @@ def callback(q_item, *sketches, **kwargs):
     def fire():
         if kind == "raise":
             run["fired"].append((item_id, phase, "raise"))
-            raise RuntimeError(f"injected callback failure on item {item_id} ({phase})")
+            raise make_exception(fault.get("exc", "RuntimeError"), item_id)
         run["fired"].append((item_id, phase, "die"))
         raise _Die(fault.get("code", 7))
 
@@ -684,7 +736,7 @@ def simulate(desc, rng=None):
     decisions = desc.get("decisions")
     install_line_hooks()
     s = Sched(rng=rng, decisions=decisions, personality=desc.get("personality", "uniform"),
-              step_cap=desc.get("step_cap", 20000), line_p=desc.get("line_p", 0.0),
+              step_cap=desc.get("step_cap", 60000), line_p=desc.get("line_p", 0.0),
               line_decisions=desc.get("line_decisions"))
     s.base_seed = desc.get("seed", 0)
     s.stall_p = desc.get("stall_p", 0.0)
@@ -711,7 +763,18 @@ def simulate(desc, rng=None):
     out.hang = None
     items = [tuple(it) if not isinstance(it, tuple) else it for it in (tuple(x) for x in desc["items"])]
     items = [(it[0], [tuple(p) for p in it[1]], it[2]) for it in items]
-    arg_items = items_generator(items) if desc.get("as_generator") else list(items)
+    objs = desc.get("item_objs") or {}
+    run["by_obj"] = {}
+    passed = []
+    for it in items:
+        spec = objs.get(str(it[0]))
+        if spec is None:
+            passed.append(it)
+        else:
+            o = build_obj(spec)
+            run["by_obj"][obj_key(o)] = it
+            passed.append(o)
+    arg_items = items_generator(passed) if desc.get("as_generator") else list(passed)
     unraisable = []
     old_hook = sys.unraisablehook
     sys.unraisablehook = lambda u: unraisable.append(repr(u.exc_value))
@@ -727,6 +790,11 @@ def simulate(desc, rng=None):
             # form a cycle that some later run's gc.collect() finalises
             e.__traceback__ = None
             out.exc = e
+        if s.hang and not out.hang and out.exc is None:
+            # the hang was declared while the declaring task sat inside a finaliser (where the
+            # abort exception is swallowed): the run is a hang all the same
+            out.hang = s.hang
+            out.result = None
         s.main.state = "done"
         leftover = [t.name for t in s.tasks if not t.done and not t.is_main]
         out.leftover = leftover
